@@ -1,0 +1,27 @@
+//go:build verif
+
+package vestingsc
+
+// Verification hook (build tag `verif` only; add-only): read-only view of the stored vesting
+// contract configuration; `valid` is the verdict of the contract's own validate().
+
+import (
+	"time"
+
+	cstate "0chain.net/chaincore/chain/state"
+)
+
+func VerifGovSettings(balances cstate.StateContextI) (fields map[string]string, raw map[string]int64, valid bool, owner string, err error) {
+	conf, err := getConfigReadOnly(balances)
+	if err != nil {
+		return nil, nil, false, "", err
+	}
+	raw = map[string]int64{
+		"min_lock":               int64(conf.MinLock),
+		"min_duration":           int64(conf.MinDuration / time.Second),
+		"max_duration":           int64(conf.MaxDuration / time.Second),
+		"max_destinations":       int64(conf.MaxDestinations),
+		"max_description_length": int64(conf.MaxDescriptionLength),
+	}
+	return conf.getConfigMap().Fields, raw, conf.validate() == nil, conf.OwnerId, nil
+}
